@@ -345,7 +345,7 @@ impl C08 {
             let mut t = ctx.tape.lock().unwrap();
             i.shuffle = t.chance(1, 2);
             i.aspa_withdraw_first = t.chance(1, 2);
-            i.timing = (t.choose(7200) as u32 + 1, t.choose(7200) as u32 + 1, t.choose(172_800) as u32 + 600);
+            i.timing = crate::c06::gen_timing(&mut t);
             if cfg.dynamic && t.chance(1, 4) {
                 i.decline_diff = 4;
             }
